@@ -467,7 +467,13 @@ func c12PlanMsg(t *rapid.T, sc *c12Scenario, pool []*c12Operator, r *c12Receiver
 
 // c12Record books the statistics of a finished case.
 func c12Record(st *verifkit.Stats, sc *c12Scenario, pool []*c12Operator, r *c12Receiver, plan []*c12Planned, caseTags map[string]bool) {
-	anySpoof, accepted := false, 0
+	c12RecordAs(st, sc, pool, r, plan, caseTags, false)
+}
+
+// c12RecordAs: alsoNontrivial marks a case non-trivial for a further reason
+// of the test (next to a spoofed seat).
+func c12RecordAs(st *verifkit.Stats, sc *c12Scenario, pool []*c12Operator, r *c12Receiver, plan []*c12Planned, caseTags map[string]bool, alsoNontrivial bool) {
+	anySpoof, accepted := alsoNontrivial, 0
 	var rendered []string
 	caseTags["state:"+r.name] = true
 	for _, p := range plan {
